@@ -161,7 +161,9 @@ def check_case(src, plan):
     try:
         c1 = Coverage(g1)
         if c1.full:
-            fail("not-rejected: an inserted unsupported statement is accepted by the gate", ["inserted-accepted"] + kinds, "not full", "full")
+            cont = sorted({_container(g, n) for n in ins})
+            fail(f"not-rejected: an unsupported statement inserted in a block under {cont} is accepted by the gate (and kept)",
+                 ["inserted-accepted"] + cont, "not full", "full")
             return fails
         c1.ast_mod()
         after = D.dump(g1)
@@ -235,6 +237,25 @@ def check_case(src, plan):
     return fails
 
 
+def _container(f, target):
+    """class of the nearest non-Compound ancestor of target in f"""
+    best = ["FuncDef"]
+
+    def go(n, anc):
+        if n is target:
+            for a in reversed(anc):
+                if type(a).__name__ != "Compound":
+                    best[0] = type(a).__name__
+                    break
+            return True
+        for _, _, c in D.children(n):
+            if go(c, anc + [n]):
+                return True
+        return False
+    go(f, [])
+    return best[0]
+
+
 def _all_nodes(n):
     out = [n]
     for _, _, c in D.children(n):
@@ -247,6 +268,9 @@ def gen_supported(rng):
     for _ in range(30):
         g = S.Gen(rng, edge=0.0, maxdepth=rng.choice([1, 2, 3]))
         src = g.func(name="f", lo=1, hi=5)
+        if rng.random() < 0.15:
+            # a labelled block: the gate accepts labels (and does not look below them)
+            src = src.rstrip()[:-1] + "LL0: { " + g.simple() + " " + g.simple() + " }\n}\n"
         try:
             ast = S.parse(src)
             if Coverage(deepcopy(ast.ext[-1])).full:
@@ -352,6 +376,8 @@ def run(ctx):
             u = rng.choice(UNSUP)
             plans += [[(b, p, u)] for b, p in positions[:25]]
             dist["all_position_sweeps"] += 1
+        allpool = UNSUP + UNSUP_D12 + UNSUP_LOOPY
+        plans.append([(*rng.choice(positions), allpool[h % len(allpool)])])      # every pool form is used at least once
         for _ in range(2):
             k = rng.choice([1, 1, 2, 3])
             pool = UNSUP if rng.random() < 0.85 else (UNSUP_D12 if rng.random() < 0.5 else UNSUP_LOOPY)
